@@ -389,14 +389,32 @@ def retarget(model: Dict[str, Any], res: G.Resolver, sts: List[G.Site], exp: Dic
     before, _ = observe(db)
     targets = [l for l in res.layer if res.parents(l)]
     for t in targets:
+        # a short name that t's PARENT-REF declares NOT-INHERITED may be used by an object t
+        # inherits: in t's context that reference has no target, retargeting has to fail
+        inctx = [(st, res.expect(st, ctx=t)) for st in sts
+                 if st.ref["f"] == "sn" and st.layer in res.closure(t) and exp[st.key].accept
+                 and not exp[st.key].raise_ok]
+        dangling = [st for st, e in inctx if not e.accept]
+        # (hidden from inheritance but IMPORTed by t: the unclear reading, refusing is accepted)
+        unclear_in_ctx = [st for st, e in inctx if e.accept and e.raise_ok]
         try:
             with warnings.catch_warnings():
                 warnings.simplefilter("ignore")
                 retarget_snrefs(db, db.diag_layers[t])
         except Exception as e:
+            if dangling or unclear_in_ctx:
+                col.count("retarget-refused:name-hidden-by-not-inherited")
+                return  # (the database is half retargeted now)
             col.violation(("retarget-raises", type(e).__name__, raise_site(e)),
                           {"model": model, "target": t, "error": f"{type(e).__name__}: {e}"[:400]})
             col.ev()
+            return
+        if dangling:
+            col.violation(("retarget-accepts-hidden-name", dangling[0].label),
+                          {"model": model, "target": t, "site": list(dangling[0].key),
+                           "ref": dangling[0].ref,
+                           "problem": "the name is NOT-INHERITED in the target layer, yet the "
+                           "reference was rebound in its context in strict mode"})
             return
         for l in res.closure(t):
             ctx[l] = t
